@@ -603,6 +603,49 @@ def task_numeric_cb(tier, seed):
     return out
 
 
+def task_numeric_rot_forms(tier, seed):
+    """Axes in the forms a caller may use (list / tuple of ints, integer ndarray, read-only float array, a strided view) and special angles
+    (0, +-pi/2, +-pi, 2pi, integer angles): the same clauses, and the same matrix whatever the form; the argument is never modified."""
+    aux = _aux()
+    rng = np.random.default_rng(299 + seed)
+    n = 40 if tier == "quick" else 400
+    first, nbad, nev = None, 0, 0
+    angles = [0, 1, -3, 0.0, math.pi / 2, -math.pi / 2, math.pi, -math.pi, 2 * math.pi, 7]
+    for t in range(n):
+        ints = [int(x) for x in rng.integers(-6, 7, 3)]
+        if not any(ints):
+            ints = [0, 0, 2]
+        th = angles[t % len(angles)]
+        ref = np.array(aux.rotation_matrix(np.array(ints, dtype=float), float(th)), dtype=float)
+        big = np.zeros((3, 2))
+        big[:, 0] = ints
+        ro = np.array(ints, dtype=float)
+        ro.setflags(write=False)
+        forms = {"list of ints": list(ints), "tuple of ints": tuple(ints), "integer ndarray": np.array(ints), "read-only float array": ro,
+                 "strided view": big[:, 0]}
+        bad = [c.describe() for c in numeric_rot([float(x) for x in ints], float(th), 0.3)]
+        for name, ax in forms.items():
+            keep = list(ax) if not isinstance(ax, np.ndarray) else ax.copy()
+            try:
+                R = np.array(aux.rotation_matrix(ax, th), dtype=float)
+            except Exception as e:      # noqa
+                bad.append(f"axis {ints} given as {name}, theta {th!r}: raises {type(e).__name__}: {e}")
+                continue
+            nev += 1
+            if R.shape != (3, 3) or np.abs(R - ref).max() > 1e-12:
+                bad.append(f"axis {ints} given as {name}, theta {th!r}: matrix differs from the one for the float array by {float(np.abs(R - ref).max()) if R.shape == (3, 3) else R.shape}")
+            if list(ax) != list(keep):
+                bad.append(f"axis given as {name} was modified: {list(ax)} (was {list(keep)})")
+        if bad:
+            nbad += 1
+            first = first or bad
+    oid = f"{PROP}/rotation_matrix/bounded.axis-forms-and-special-angles"
+    if first:
+        return [ob(oid, "refuted", kind="bounded", engine="smallscope", backend="numeric-contract", evaluations=nev,
+                   reason=f"{nbad}/{n} cases violate; first: " + "; ".join(first[:3]), cex={"fn": "rotation_forms", "tier": tier, "seed": seed, "signature": "forms"})]
+    return [ob(oid, "discharged", kind="bounded", engine="smallscope", backend="numeric-contract", evaluations=nev, sample={"cases": n})]
+
+
 def task_numeric_rot(tier, seed):
     rng = np.random.default_rng(99 + seed)
     n = 200 if tier == "quick" else 3000
@@ -648,10 +691,15 @@ def tasks(prop, tier, seed):
         t.append((f"calcule_base/path{k}", task_cb_path, (k, seed), 600.0))
     t.append(("calcule_base/numeric", task_numeric_cb, (tier, seed), 600.0))
     t.append(("rotation_matrix/numeric", task_numeric_rot, (tier, seed), 600.0))
+    t.append(("rotation_matrix/numeric-forms", task_numeric_rot_forms, (tier, seed), 600.0))
     return t
 
 
 def replay(prop, cex):
+    if cex.get("fn") == "rotation_forms":
+        r = task_numeric_rot_forms(cex.get("tier", "quick"), cex.get("seed", 0))
+        bad = [o for o in r if o.get("status") == "refuted"]
+        return {"reproduced": bool(bad), "observed": bad[0].get("reason") if bad else None, "inputs": cex}
     if cex.get("fn") == "rotation_matrix":
         ax = cex["axis"]
         if not any(ax):
